@@ -920,6 +920,19 @@ trait ShapeOf<'gc, T>: gc_arena::collect::DynCollect<'gc> { fn area(&self) -> T;
 gc_arena::__dyn_collect!(<T> dyn ShapeOf<'gc, T> where T: Clone);
 fn main() {}
 ''')
+P("C13", "dyn_collect_where_clause_token_injection", "~not allowed in the where clause|~compile_error|E0046|E0277", "dyn_collect! with a brace group in its where clause: the clause is pasted in front of the generated impl body, the client's `{}` becomes the body of the unsafe impl Collect (default no-op trace) and the generated body is eaten by a trailing macro call - a trait object that needs no DynCollect supertrait at all becomes Collect (F18)", '''
+macro_rules! swallow { ($($t:tt)*) => {}; }
+struct NotCollect<'gc>(Gc<'gc, i32>);
+#[cfg(bad)]
+trait Holder<'gc, T> { fn get(&self) -> Gc<'gc, i32>; }
+#[cfg(bad)]
+gc_arena::__dyn_collect!(<T> dyn Holder<'gc, T> + 'gc where T: Sized {} swallow!);
+#[cfg(not(bad))]
+trait Holder<'gc, T>: gc_arena::collect::DynCollect<'gc> { fn get(&self) -> Gc<'gc, i32>; }
+#[cfg(not(bad))]
+gc_arena::__dyn_collect!(<T> dyn Holder<'gc, T> + 'gc where T: Sized);
+fn main() {}
+''')
 P("C19", "unsize_deref_string_str", "E0308|E0277", "unsize! through a Deref coercion (String to str): the result would point into the heap buffer, not at the Gc value", '''
 use gc_arena::unsize;
 fn main() {
@@ -995,6 +1008,16 @@ D("two_attributes", "~multiple `#\\[collect\\]` attributes", "two #[collect] att
 D("unknown_option", "~unknown option", "unknown option in #[collect]",
   "    #[derive(Collect)]\n    #[collect(frobnicate)]\n    pub struct S<'gc> { p: Gc<'gc, i32> }",
   "    #[derive(Collect)]\n    #[collect(no_drop)]\n    pub struct S<'gc> { p: Gc<'gc, i32> }")
+INJ = "a `bound` string that is more than a where clause: the tokens are spliced between the impl header and the generated body, the first brace group becomes the (empty) impl body and the generated trace is thrown away - a rooted Gc field is never traced (F17)"
+D("bound_string_token_injection_macro", "~unexpected token|~expected|~proc-macro derive|~proc.macro", INJ,
+  "    macro_rules! swallow { ($($t:tt)*) => {}; }\n    #[derive(Collect)]\n    #[collect(no_drop, bound = \"where {} swallow!\")]\n    pub struct S<'gc> { p: Gc<'gc, i32> }",
+  "    #[derive(Collect)]\n    #[collect(no_drop, bound = \"\")]\n    pub struct S<'gc> { p: Gc<'gc, i32> }")
+D("bound_string_token_injection_cfg_item", "~unexpected token|~expected|~proc-macro derive|~proc.macro", INJ + " (without a client macro: the body becomes a cfg'd-out module)",
+  "    #[derive(Collect)]\n    #[collect(no_drop, bound = \"where T: Collect<'gc> {} #[cfg(any())] mod discarded\")]\n    pub struct S<'gc, T> { p: Gc<'gc, i32>, t: T }",
+  "    #[derive(Collect)]\n    #[collect(no_drop, bound = \"where T: Collect<'gc>\")]\n    pub struct S<'gc, T> { p: Gc<'gc, i32>, t: T }")
+D("bound_string_overrides_needs_trace", "~unexpected token|~expected|~proc-macro derive|~proc.macro", INJ + " (the injected body sets NEEDS_TRACE = false)",
+  "    macro_rules! swallow { ($($t:tt)*) => {}; }\n    #[derive(Collect)]\n    #[collect(no_drop, bound = \"where { const NEEDS_TRACE: bool = false; } swallow!\")]\n    pub struct S<'gc> { p: Gc<'gc, i32> }",
+  "    #[derive(Collect)]\n    #[collect(no_drop, bound = \"where\")]\n    pub struct S<'gc> { p: Gc<'gc, i32> }")
 D("no_drop_with_drop_impl", "E0119", "no_drop on a type that implements Drop",
   "    #[derive(Collect)]\n    #[collect(no_drop)]\n    pub struct S<'gc> { p: Gc<'gc, i32> }\n    impl<'gc> Drop for S<'gc> { fn drop(&mut self) {} }",
   "    #[derive(Collect)]\n    #[collect(unsafe_drop)]\n    pub struct S<'gc> { p: Gc<'gc, i32> }\n    impl<'gc> Drop for S<'gc> { fn drop(&mut self) {} }")
